@@ -102,7 +102,7 @@ mut("walk-preorder", "parsley/walk.go",
     "func Walk(node Node, f func(n Node) bool) bool {\n	if _, isNT := node.(NonTerminalNode); isNT {\n		if f(node) {\n			return true\n		}\n		for _, child := range node.(NonTerminalNode).Children() {\n			if Walk(child, f) {\n				return true\n			}\n		}\n		return false\n	}\n	switch n := node.(type) {", ["C13"])
 mut("walk-continues-after-true", "parsley/walk.go", "			if Walk(child, f) {\n				return true\n			}", "			Walk(child, f)", ["C13"])
 mut("staticcheck-keeps-walking", "parsley/static_check.go", "				staticCheckErr = err\n				return true", "				staticCheckErr = err\n				return false", ["C13"])
-mut("staticcheck-records-schema-on-error", "ast/nonterminal_node.go", "			schema, err := i.StaticCheck(userCtx, n)\n			if err != nil {\n				return err\n			}\n			n.schema = schema", "			schema, err := i.StaticCheck(userCtx, n)\n			n.schema = schema\n			if err != nil {\n				return err\n			}", ["C13"], "the property is silent about the schema of a failing node: not inspected")
+mut("staticcheck-records-schema-on-error", "ast/nonterminal_node.go", "			schema, err := i.StaticCheck(userCtx, n)\n			if err != nil {\n				return err\n			}\n			n.schema = schema", "			schema, err := i.StaticCheck(userCtx, n)\n			n.schema = schema\n			if err != nil {\n				return err\n			}", ["C13"])
 mut("transform-skips-children", "ast/nonterminal_node.go", "	for i, child := range n.children {\n		if n.children[i], err = parsley.Transform(userCtx, child); err != nil {", "	for i, child := range n.children[:len(n.children)/2] {\n		if n.children[i], err = parsley.Transform(userCtx, child); err != nil {", ["C13"])
 mut("select-off-by-one", "ast/interpreter/interpreter.go", "	return parsley.EvaluateNode(userCtx, nodes[s.i])", "	return parsley.EvaluateNode(userCtx, nodes[(s.i+1)%len(nodes)])", ["C13", "C05"])
 # ---- concurrency
